@@ -93,7 +93,14 @@ where
             Ok(rest) => {
                 // a panic while using the RESTORED value is a finding, not a harness error
                 let fb_rest = catch_unwind(AssertUnwindSafe(|| fp_of(&rest, &p, fp))).map_err(|_| "restored value panicked when used".to_string());
-                let eqr = eq.map(|f| catch_unwind(AssertUnwindSafe(|| f(&orig, &rest))).unwrap_or(false));
+                // `==` is only an oracle where it is an equivalence on this value: a NaN inside the
+                // original (e.g. an SVM's internal `r` when no free support vector exists) makes the
+                // original unequal to itself, and then nothing can be demanded of the restored copy
+                let reflexive = eq.map(|f| catch_unwind(AssertUnwindSafe(|| f(&orig, &orig))).unwrap_or(false));
+                if reflexive == Some(false) {
+                    *probes.entry("original_not_equal_to_itself_(NaN_inside)".to_string()).or_default() += 1;
+                }
+                let eqr = if reflexive == Some(true) { eq.map(|f| catch_unwind(AssertUnwindSafe(|| f(&orig, &rest))).unwrap_or(false)) } else { None };
                 // second generation: the restored value is persisted again (a service that
                 // checkpoints what it restored) and restored once more
                 let gen2: Result<Fingerprint, String> = (|| {
